@@ -119,6 +119,13 @@ CLAIMED.update({
    note="Reports with port 0 closed are not judged as impossible (the code supports other entry ports). Exact delays in trees are recorded, not asserted (the statement claims exactness for chains only). Known findings: non-DC device between DC devices on a chain; children of a cross junction."),
 })
 
+CLAIMED.update({
+ "C18": dict(engine="simnet", category="exploration", design_ref="§5 C18",
+   technique="property-based testing against simulated devices whose reference clock answers generated 64 bit times: generated periods / delays / shifts over 1 ns..u32::MAX and just above, every mix of DC capability and DcSync setting, both arithmetic profiles; oracle = the devices' DC sync registers (and every write attempt to them) after configure_dc_sync, and CycleInfo of tx_rx_dc recomputed in u128",
+   text="Devices that lack DC or did not ask for sync are never written; the others get a start time that is a multiple of the period inside (ref + delay - period, ref + delay], the SYNC0 / SYNC1 cycle times and activation flags 0x03 / 0x07; SYNC0 period, start delay or SYNC1 period above u32::MAX ns are rejected (for period / delay: before any register is written); no DC device => DistributedClock(NoReference). Per cycle: dc_system_time == t, cycle_start_offset == t mod period, next_cycle_wait == period - offset + shift for t over all of u64.",
+   note="Set-up is generated with reference time + delay <= u64::MAX (the stated interval must exist); shifts up to 2^33 ns; period 0 is outside the quantifier."),
+})
+
 NOT_YET = {}
 
 ALL = [f"C{i:02d}" for i in range(1,21)]
@@ -154,7 +161,7 @@ def main():
         {"name":"pdusim","path":"harness/vlib","serves_properties":[p for p in CLAIMED if CLAIMED[p]["engine"]=="pdusim"],"kind_free_text":"PDU-loop harness: real frame builder / TX / RX driven op by op under a virtual clock, reference frame encoder, slot snapshots through verif-hooks"},
         {"name":"sii","path":"harness/vlib/src/sii.rs","serves_properties":["C12","C13","C14"],"kind_free_text":"independent SII EEPROM encoder + in-memory EepromDataProvider (4/8 byte chunks, read budget), driven through the verif-hooks SiiQueries facade"},
         {"name":"wiregen","path":"harness/vlib/src/wiregen.rs","serves_properties":["C19"],"kind_free_text":"derive-program generator, Rust source emitter, request/response executor, bit-level reference packer"},
-        {"name":"simnet","path":"harness/vlib/src/simnet.rs","serves_properties":["C07","C08","C09","C10","C11","C15","C16","C17"],"kind_free_text":"simulated EtherCAT segment: frame walk over ESC register/SII/SM/FMMU/AL/mailbox(CoE)/DC models, deterministic executor under the virtual clock, coherent device generator"},
+        {"name":"simnet","path":"harness/vlib/src/simnet.rs","serves_properties":["C07","C08","C09","C10","C11","C15","C16","C17","C18"],"kind_free_text":"simulated EtherCAT segment: frame walk over ESC register/SII/SM/FMMU/AL/mailbox(CoE)/DC models, deterministic executor under the virtual clock, coherent device generator"},
         {"name":"a2","path":"harness/vlib/src/a2.rs","serves_properties":["C01","C02","C06"],"kind_free_text":"yield-level scheduler: parties as ucontext coroutines on one thread, baton handed over at every verif-hooks point, schedules generated (random/PCT) or enumerated (pre-emption bounded), ownership monitor"},
       ],
       "checks":checks,
